@@ -574,3 +574,104 @@ def structural_mutations(blob: bytes) -> t.Iterator[bytes]:
                 yield replace_content(blob, tree, parent, newc)
             except Exception:  # noqa: BLE001
                 continue
+
+
+def _sp800_108_ctr_hmac(hash_name: str, key: bytes, label: bytes, context: bytes, length: int) -> bytes:
+    """SP800-108 counter mode, HMAC, 32-bit counter before the fixed data, 32-bit length in bits (what _crypto.kdf configures)"""
+    import hashlib
+    import hmac
+
+    fixed = label + b"\x00" + context + (length * 8).to_bytes(4, "big")
+    out = b""
+    i = 1
+    while len(out) < length:
+        out += hmac.new(key, i.to_bytes(4, "big") + fixed, getattr(hashlib, hash_name)).digest()
+        i += 1
+    return out[:length]
+
+
+def _sp800_56a_concat(hash_name: str, z: bytes, otherinfo: bytes, length: int) -> bytes:
+    import hashlib
+
+    out = b""
+    i = 1
+    while len(out) < length:
+        out += getattr(hashlib, hash_name)(i.to_bytes(4, "big") + z + otherinfo).digest()
+        i += 1
+    return out[:length]
+
+
+def kek_from_dh_secret(hash_name: str, shared_secret: bytes) -> bytes:
+    """the KEK MS-GKDI derives from a DH shared secret (independent of the library: hashlib / hmac only)"""
+    label = "KDS service\0".encode("utf-16-le")
+    ctx = "KDS public key\0".encode("utf-16-le")
+    secret = _sp800_56a_concat("sha256", shared_secret, "SHA512\0".encode("utf-16-le") + ctx + label, 32)
+    return _sp800_108_ctr_hmac(hash_name, secret, label, ctx, 32)
+
+
+def retarget_to_public_key_mode(blob: bytes, hash_name: str, p: int, g: int, pub: int, key_length: int, shared_secret_int: int,
+                                forged: bytes) -> bytes:
+    """A multi-site alteration of a valid blob by someone who holds NO secret of the group: the key identifier is switched to
+    public-key mode (flag bit 0) with a DH key blob (key_length, p, g, pub) of the modifier's choosing, the CEK is the modifier's
+    own, wrapped under the KEK that follows from the shared secret the modifier predicts, and the content is the modifier's."""
+    import dataclasses
+
+    from cryptography.hazmat.primitives import keywrap
+    from cryptography.hazmat.primitives.ciphers.aead import AESGCM
+
+    from dpapi_ng._asn1 import ASN1Writer
+    from dpapi_ng._blob import DPAPINGBlob
+    from dpapi_ng._gkdi import FFCDHKey
+
+    b = DPAPINGBlob.unpack(blob)
+    ffk = FFCDHKey(key_length=key_length, field_order=p, generator=g, public_key=pub).pack()
+    kek = kek_from_dh_secret(hash_name, shared_secret_int.to_bytes(key_length, "big"))
+    cek, iv = b"C" * 32, b"N" * 12
+    w = ASN1Writer()
+    with w.push_sequence() as s:
+        s.write_octet_string(iv)
+        s.write_integer(16)
+    kid = dataclasses.replace(b.key_identifier, flags=b.key_identifier.flags | 1, key_info=ffk)
+    nb = dataclasses.replace(b, key_identifier=kid, enc_cek=keywrap.aes_key_wrap(kek, cek),
+                             enc_content=AESGCM(cek).encrypt(iv, forged, None), enc_content_parameters=w.get_data())
+    return nb.pack()
+
+
+def keyless_public_key_forgeries(blob: bytes, hash_name: str, group_p: int, group_g: int, group_kl: int) -> t.Iterator[t.Tuple[str, bytes]]:
+    """degenerate public values and modifier-chosen groups: the shared secret pub^y mod p is known whatever the group's private key y is"""
+    forged = b"FORGED without any key material"
+    fam = [
+        ("own group p=23, public key 1", 23, 5, 1, 1, 1),
+        ("own group p=23, public key 0", 23, 5, 0, 1, 0),
+        ("own modulus 1", 1, 1, 0, 1, 0),
+        ("own group p=2^127-1, public key 1", 2 ** 127 - 1, 3, 1, 16, 1),
+        ("the group's own parameters, public key 1", group_p, group_g, 1, group_kl, 1),
+        ("the group's own parameters, public key 0", group_p, group_g, 0, group_kl, 0),
+        # p - 1 has order 2: the secret is 1 or p - 1, both are tried
+        ("the group's own parameters, public key p-1 (secret 1)", group_p, group_g, group_p - 1, group_kl, 1),
+        ("the group's own parameters, public key p-1 (secret p-1)", group_p, group_g, group_p - 1, group_kl, group_p - 1),
+    ]
+    for what, p, g, pub, kl, secret in fam:
+        try:
+            yield what, retarget_to_public_key_mode(blob, hash_name, p, g, pub, kl, secret, forged)
+        except Exception:  # noqa: BLE001
+            continue
+
+
+def small_subgroup_forgeries(blob: bytes, hash_name: str, p: int, g: int, kl: int, r: int) -> t.Iterator[t.Tuple[str, bytes]]:
+    """The group's own parameters and a public value of small order r (r divides p - 1): pub^y mod p is one of only r values whatever the
+    private key y is, so one of the r candidate blobs carries the right KEK. Needs no key material; a range check cannot refuse it
+    (the test pub^q = 1 needs the subgroup order q, which the MS-GKDI parameter blob does not carry)."""
+    if (p - 1) % r:
+        return
+    h = 2
+    pub = pow(h, (p - 1) // r, p)
+    while pub in (0, 1, p - 1):
+        h += 1
+        pub = pow(h, (p - 1) // r, p)
+    for k in range(r):
+        try:
+            yield (f"group parameters, public value of order {r}, candidate secret pub^{k}",
+                   retarget_to_public_key_mode(blob, hash_name, p, g, pub, kl, pow(pub, k, p), b"FORGED with a small-subgroup public value"))
+        except Exception:  # noqa: BLE001
+            continue
